@@ -207,7 +207,10 @@ def run(ctx):
             ops = atomic_ops(f)
             byf = {}
             for o in ops:
-                fld = strip_sym(o[2])[2] if strip_sym(o[2])[0] == "field" else "?"
+                if o[2] is None:
+                    continue  # a constructor (AtomicU64::new / default): no receiver
+                r_ = strip_sym(o[2])
+                fld = r_[2] if isinstance(r_, tuple) and r_ and r_[0] == "field" else "?"
                 byf.setdefault(fld, []).append(o[1])
             bad = [fl_ for fl_, v in byf.items() if "load" in v and "store" in v]
             if bad:
